@@ -48,15 +48,21 @@ type nameInfo struct {
 	typ     string // counter gauge histogram
 	grouped bool
 	labels  []string // ungrouped metrics keep one label-name set (client_golang requirement)
+	// bare: a grouped metric reported without any labels, always under the group fixedGroup (so that the one series
+	// never lives in two groups at once)
+	bare       bool
+	fixedGroup string
 }
 
 var names = []nameInfo{
-	{"m_cnt_g", "counter", true, nil},
-	{"m_gauge_g", "gauge", true, nil},
-	{"m_gauge2_g", "gauge", true, nil},
-	{"m_cnt", "counter", false, []string{"a"}},
-	{"m_gauge", "gauge", false, []string{"a", "b"}},
-	{"m_hist", "histogram", false, []string{"a"}},
+	{name: "m_cnt_g", typ: "counter", grouped: true},
+	{name: "m_gauge_g", typ: "gauge", grouped: true},
+	{name: "m_gauge2_g", typ: "gauge", grouped: true},
+	{name: "m_bare_g", typ: "gauge", grouped: true, bare: true, fixedGroup: "g1"},
+	{name: "m_barecnt_g", typ: "counter", grouped: true, bare: true, fixedGroup: "g2"},
+	{name: "m_cnt", typ: "counter", labels: []string{"a"}},
+	{name: "m_gauge", typ: "gauge", labels: []string{"a", "b"}},
+	{name: "m_hist", typ: "histogram", labels: []string{"a"}},
 }
 
 var groups = []string{"g1", "g2", "g3"}
@@ -74,7 +80,12 @@ func genOp(t *rapid.T) Op {
 	ni := rapid.SampledFrom(names).Draw(t, "name")
 	op := Op{Name: ni.name}
 	v := genValue(t)
-	if ni.grouped {
+	if ni.bare {
+		op.Group = ni.fixedGroup
+		if rapid.Bool().Draw(t, "emptyLabels") {
+			op.Labels = map[string]string{}
+		}
+	} else if ni.grouped {
 		op.Group = rapid.SampledFrom(groups).Draw(t, "group")
 		// label values are group specific so that one series never lives in two groups at once
 		op.Labels = map[string]string{}
@@ -93,7 +104,7 @@ func genOp(t *rapid.T) Op {
 			op.Labels[l] = rapid.SampledFrom([]string{"x", "y"}).Draw(t, "lv")
 		}
 	}
-	if rapid.IntRange(0, 7).Draw(t, "ownHookLabel") == 0 {
+	if !ni.bare && rapid.IntRange(0, 7).Draw(t, "ownHookLabel") == 0 {
 		// a hook may write a label called "hook" itself
 		op.Labels["hook"] = "h9"
 	}
@@ -407,7 +418,7 @@ func runCase(c Case) (ev.Info, error) {
 	return inf, nil
 }
 
-const rule = "histories of 1-10 metric batches (1-8 operations each, rendered as the JSON stream a hook writes and parsed by MetricOperationsFromBytes) from 3 hooks over 6 metric names (grouped counter/gauges, ungrouped counter/gauge/histogram), 3 groups, label subsets, add/set/observe/expire and the add:/set: shortcuts, integer and fractional values, 1 in 6 batches with one broken operation; after every batch Gatherer.Gather() must equal a reference registry. Non-trivial: a group reported at least twice with different series sets. Distinct = distinct histories."
+const rule = "histories of 1-10 metric batches (1-8 operations each, rendered as the JSON stream a hook writes and parsed by MetricOperationsFromBytes) from 3 hooks over 8 metric names (grouped counter/gauges, a grouped gauge and a grouped counter reported without any labels, ungrouped counter/gauge/histogram), 3 groups, label subsets, add/set/observe/expire and the add:/set: shortcuts, integer and fractional values, 1 in 6 batches with one broken operation; after every batch Gatherer.Gather() must equal a reference registry. Non-trivial: a group reported at least twice with different series sets. Distinct = distinct histories."
 
 func TestMetrics(t *testing.T) {
 	ev.Main(t, ev.Spec[Case]{Property: "C16", Part: "metrics", Rule: rule, Gen: gen, Run: runCase})
